@@ -86,7 +86,8 @@ func (r *Report) GetCommand() sms.ICommander {
 
 func (r *Report) GenEmptyResponse() sms.PDU {
 	return &ReportResp{
-		Header: sgip.NewHeader(0, sgip.SGIP_REPORT_REP, r.Header.Sequence[0], r.GetSequenceID()),
+		// SGIP 1.2 §3.4: a response repeats the whole sequence number of its command
+		Header: sgip.Header{CommandID: sgip.SGIP_REPORT_REP, Sequence: r.Header.Sequence},
 	}
 }
 
